@@ -32,9 +32,11 @@ KINDS = {
     'bigbody': ['canon', 'chunked_ext', 'big'],     # body longer than one 4096-byte read
     'biggz': ['lf', 'cl', 'biggz'],
     'huge': ['canon', 'cl', 'huge'],          # block longer than the writer's 64 KiB buffer
+    'hdr32k': ['pad32768', 'cl', 'text'],     # the largest header block the client accepts
+    'hdr32k-1': ['pad32767', 'chunked1', 'binary'],
 }
 ORDER = ['canon', 'lfonly', 'chunked_tr', 'empty', 'binary', 'repeat', 'nospace', 'gzip',
-         'junk', 'bighdr', 'n404', 'embedded', 'bigbody', 'biggz', 'huge']
+         'junk', 'bighdr', 'n404', 'embedded', 'bigbody', 'biggz', 'huge', 'hdr32k', 'hdr32k-1']
 BITS = ['compress', 'digests', 'cdx', 'rollover', 'preexisting', 'log', 'extra', 'dedup']
 
 SAME_URL = 'http://h.test/same'
